@@ -6,6 +6,7 @@ import (
 	"go/token"
 	"go/types"
 	"strings"
+	"time"
 
 	"golang.org/x/tools/go/ssa"
 
@@ -45,6 +46,8 @@ type Violation struct {
 type Run struct {
 	Eng    *Engine
 	Solver *smt.Solver
+	LIA    *smt.Solver
+	LIAUnsat int
 	Name   string
 
 	work []*State
@@ -55,6 +58,8 @@ type Run struct {
 	Obligations int // assertion queries posed
 	Discharged  int // unsat
 	Trivial     int
+	KnownHits   int
+	OneShots    int
 	UnknownObl  int
 	Feasibility int // branch feasibility queries
 	Paths       int
@@ -67,6 +72,7 @@ type Run struct {
 	PanicIsViolation bool
 	Hook        MemHook
 	LoopBound   int
+	Prop        string
 	OnEnd       func(e End)
 	stopAll     bool
 }
@@ -90,18 +96,19 @@ func unknownf(f string, a ...interface{}) error {
 
 // sat checks pc ∧ extra.
 func (r *Run) sat(st *State, extra ...*smt.Term) smt.Result {
-	as := make([]*smt.Term, 0, len(st.PC)+len(extra))
-	as = append(as, st.PC...)
 	for _, x := range extra {
 		if x.IsFalse() {
 			return smt.Unsat
 		}
-		if !x.IsTrue() {
-			as = append(as, x)
-		}
 	}
 	r.Feasibility++
-	res, _, _ := r.Solver.Check(as, nil)
+	if r.LIA != nil {
+		if res, _, _ := r.LIA.Check(st.PC, extra, nil); res == smt.Unsat {
+			r.LIAUnsat++
+			return smt.Unsat
+		}
+	}
+	res, _, _ := r.Solver.Check(st.PC, extra, nil)
 	return res
 }
 
@@ -125,7 +132,25 @@ func (r *Run) model(st *State, extra ...*smt.Term) (smt.Result, map[string]uint6
 			vars = append(vars, v)
 		}
 	}
-	res, m, _ := r.Solver.Check(as, vars)
+	if r.LIA != nil {
+		if res, _, _ := r.LIA.Check(st.PC, extra, nil); res == smt.Unsat {
+			r.LIAUnsat++
+			return smt.Unsat, nil
+		}
+	}
+	// assertion-class queries: short incremental attempt, then one-shot portfolio
+	r.Solver.SetTimeout(1500)
+	res, m, _ := r.Solver.Check(st.PC, extra, vars)
+	r.Solver.SetTimeout(r.Solver.TimeoutMs)
+	if res == smt.Unknown {
+		for _, kind := range []string{"z3-new", "z3"} {
+			r.OneShots++
+			res, m, _ = smt.CheckOneShot(kind, st.PC, extra, vars, 60*time.Second)
+			if res != smt.Unknown {
+				break
+			}
+		}
+	}
 	return res, m
 }
 
@@ -453,6 +478,9 @@ func (r *Run) pushCall(st *State, fn *ssa.Function, args []Value, bind []Value, 
 func (r *Run) doReturn(st *State, vals []Value) error {
 	f := st.top()
 	st.Frames = st.Frames[:len(st.Frames)-1]
+	if f.OnReturn != nil {
+		vals = f.OnReturn(vals)
+	}
 	if len(st.Frames) == 0 {
 		st.Result = vals
 		return nil
@@ -775,8 +803,18 @@ func (r *Run) exec(st *State, f *Frame, in ssa.Instruction) error {
 		if c.IsFalse() {
 			return r.jump(st, f, succF)
 		}
+		if kv, ok := st.KnownVal(c); ok {
+			r.KnownHits++
+			if kv {
+				return r.jump(st, f, succT)
+			}
+			return r.jump(st, f, succF)
+		}
 		rt := r.sat(st, c)
-		rf := r.sat(st, smt.Not(c))
+		rf := smt.Sat
+		if rt != smt.Unsat {
+			rf = r.sat(st, smt.Not(c))
+		}
 		if rt == smt.Unknown || rf == smt.Unknown {
 			r.Notes = append(r.Notes, "feasibility unknown at "+st.pos(x.Pos())+" (both sides kept)")
 		}
@@ -1007,6 +1045,9 @@ func (r *Run) guard(st *State, ok *smt.Term, msg string, pos token.Pos) error {
 	}
 	if ok.IsFalse() {
 		return r.startPanic(st, msg, pos)
+	}
+	if kv, known := st.KnownVal(ok); known && kv {
+		return nil
 	}
 	bad := r.sat(st, smt.Not(ok))
 	if bad == smt.Unsat {
